@@ -506,6 +506,11 @@ func (k Keeper) SetWithdrawAddress(ctx sdk.Context, owner, withdrawAddr sdk.AccA
 	store.Set(types.GetWithdrawAddrKey(owner), withdrawAddr.Bytes())
 }
 
+// BlockedAddr returns true if the given address is not allowed to receive funds (e.g. a module account)
+func (k Keeper) BlockedAddr(addr sdk.AccAddress) bool {
+	return k.bankKeeper.BlockedAddr(addr)
+}
+
 // GetWithdrawAddress gets the withdrawal address of the specified owner
 func (k Keeper) GetWithdrawAddress(ctx sdk.Context, owner sdk.AccAddress) sdk.AccAddress {
 	store := ctx.KVStore(k.storeKey)
